@@ -816,33 +816,39 @@ def table_free_theorems(run):
         run.cov["checker_cmd"] = "cd /verif/coq && make %s (translator failed: the table theorems were not re-checked)" % (PROOFS[0][:-2] + ".vo")
     run.log("property file did not build; table-free theorems re-checked on their own: %d/%d" % (run.cov["discharged"], run.cov["obligations"]))
 
-CASE_TYPES = {
-    "check_weights": "(string * Z * list (string * Q))%type",
-    "check_bins_float": "(list float * list (option float * list (option float)))%type",
-    "check_bins_q": "(list Q * list (option Q * list (option Q)))%type",
-    "check_how": "list (Z * Z * Z)",
-    "check_occupancy": "(list bool * list bool * list (bool * option bool * option float * list (option float) "
-                       "* list (option float)))%type",
-    "check_prediction": "(string * Z * option string)%type",
-    "check_prediction_on": "(list Z * list string * string * Z * option string)%type",
-    "check_unc": "(list string * Z * option string)%type",
+CONSTRUCTORS = {
+    "check_weights": "CWeights", "check_bins_float": "CBinsF", "check_bins_q": "CBinsQ", "check_how": "CHow",
+    "check_occupancy": "COccupancy", "check_prediction": "CPrediction", "check_prediction_on": "CPredictionOn", "check_unc": "CUnc",
 }
 
 
-def compare(run, stream, terms, meta, check_fn, shard):
-    if not terms:
+def compare_all(run, results):
+    """every stream's cases in one batch (one wait for coq/.lock, one round of coqc processes): each case is wrapped in the
+    constructor of its stream (Model/CalTrackRun.v c18case, check_any); the constructor also gives an empty list its type.
+    Cases are dealt round-robin over the shards so that the long ones (bins, occupancy) are spread evenly."""
+    items = [(stream, "(%s %s)" % (CONSTRUCTORS[fn], t), mt) for stream, terms, meta, fn in results for t, mt in zip(terms, meta)]
+    if not items:
         return
-    # the case type is stated: an empty endpoint list `[]` inside a literal has no type of its own
-    bad = run.coq_cases(stream, IMPORTS, "", terms, check_fn, shard=shard, case_type=CASE_TYPES[check_fn])
-    run.log("compared %s: %d cases, %s" % (stream, len(terms), "coq failed" if bad is None else "%d disagreements" % len(bad)))
+    shard = max(16, -(-len(items) // 48))
+    nsh = -(-len(items) // shard)
+    items = [it for k in range(nsh) for it in items[k::nsh]]
+    bad = run.coq_cases("all", IMPORTS, "", [t for _, t, _ in items], "check_any", shard=shard, case_type="c18case")
+    per = run.cov["streams"]
+    for stream, _, _ in items:
+        per.setdefault(stream, {"cases": 0, "disagreements": 0})["cases"] += 1
+    run.log("compared %d cases of %d streams: %s" % (len(items), len({st for st, _, _ in items}),
+                                                     "coq failed" if bad is None else "%d disagreements" % len(bad)))
     if bad is None:
         run.proof_ok = False
         return
-    for i in bad[:8]:
-        run.corr_failures.append({"stream": stream, "case": meta[i], "impl": terms[i][:1500],
-                                  "model": model_says(run, stream, meta[i]) if i == bad[0] else None})
-    for i in bad[8:]:
-        run.corr_failures.append({"stream": stream, "case": meta[i]})
+    for n, i in enumerate(bad):
+        stream, term, mt = items[i]
+        per[stream]["disagreements"] += 1
+        if n < 8:
+            run.corr_failures.append({"stream": stream, "case": mt, "impl": term[:1500],
+                                      "model": model_says(run, stream, mt) if n == 0 else None})
+        else:
+            run.corr_failures.append({"stream": stream, "case": mt})
 
 
 def model_says(run, stream, mt):
@@ -910,7 +916,10 @@ def main():
     if ex is not None:
         run.log("tables regenerated from %s; re-checking the theorems (waits for coq/.lock if another check is building)" % vlib.repo_root())
         run.check_proofs(PROP, PROOFS, generated=["Generated/CalTrackTables.v"])
-        run.ensure_models(["Model/CalTrackRun.v", "Model/CasesLib.v"])
+        if not run.proof_ok:        # Properties/C18.v requires Model/CalTrackRun.v: after a successful build it is up to date
+            ok = run.proof_ok
+            run.ensure_models(["Model/CalTrackRun.v", "Model/CasesLib.v"])
+            run.proof_ok = ok
         run.log("theorems re-checked: %d/%d" % (run.cov["discharged"], run.cov["obligations"]))
         check_tables(run, ex)
     only = None
@@ -947,8 +956,7 @@ def main():
     if not run.proof_ok:
         table_free_theorems(run)
     if ex is not None:
-        for stream, terms, meta, fn in results:
-            compare(run, stream, terms, meta, fn, shard={"bins_float": 12, "bins_q": 12, "occupancy": 6, "how": 4}.get(stream, 200))
+        compare_all(run, results)
     run.finish()
 
 
